@@ -23,7 +23,7 @@ not attacked afterwards). All statements are for **every** position, not a sampl
   `pins_family` (what `get_pins` computes) and `pin_generic`.
 
 The two slider lookups enter through `SliderTables`; the `_tables` corollaries discharge it with
-`Props.C07` and therefore inherit that file's one `native_decide` (the 107,648-case table sweep).
+`Props.C07` (the 107,648-case table sweep, decided by the kernel alone).
 * `generate_nodup` — no move occurs twice in what the two stages return (each stage is duplicate-free by
   construction; the sixteen stages are told apart by mover, flag and shape of the move).
 * `legal_closed` — the positions satisfying the invariant behind `PosH` (one king a side, the side not to
@@ -112,7 +112,7 @@ theorem game_generate_exact (T : SliderTables) (c : Cfg) (g : Game) (ms : List M
         (caps ++ quiets).Nodup ∧ ∀ m, m ∈ caps ++ quiets ↔ m ∈ legalMoves pos' :=
   Tcheran.game_generate_exact T c g ms pos' hc hl hp
 
-/-- the slider tables of the engine are the ray walks (`Props.C07`; carries its `native_decide`) -/
+/-- the slider tables of the engine are the ray walks (`Props.C07`) -/
 theorem sliderTables : SliderTables :=
   ⟨Tcheran.Props.C07.rook_table_geometric, Tcheran.Props.C07.bishop_table_geometric⟩
 
